@@ -319,7 +319,7 @@ impl<'a> Gen<'a> {
 
 pub fn gen_program(r: &mut Rng, cfg: &GenCfg) -> (String, Vec<&'static str>) {
     // now and then one of the shapes the grammar reaches rarely
-    if r.chance(8) { return (shape(r), vec!["shape"]); }
+    if cfg.defs && cfg.vars && cfg.locals && r.chance(8) { return (shape(r), vec!["shape"]); }
     Gen::new(r, cfg.clone()).program()
 }
 
